@@ -35,3 +35,22 @@ Proof.
   injection H as <-. exact Hv.
 Qed.
 Print Assumptions C07_loaded_compose_is_valid.
+
+(* what a successful load returns satisfies what writing enforces *)
+From PM Require Import Proofs.LoadValid Proofs.ImagesManifest Model.Images Model.ComposeInfo.
+Theorem C07_loaded_images_are_valid :
+  forall doc st, load_images doc = Ok st -> cells_valid (im_cells st) /\ validate compose_cls (im_compose st) = Ok tt.
+Proof. exact load_images_valid. Qed.
+Print Assumptions C07_loaded_images_are_valid.
+
+Theorem C07_loaded_images_are_writable : forall doc st, load_images doc = Ok st -> exists doc', ser_images st = Ok doc'.
+Proof. exact load_images_writable. Qed.
+Print Assumptions C07_loaded_images_are_writable.
+
+Theorem C07_loaded_composeinfo_is_valid :
+  forall doc x, load_ci doc = Ok x ->
+  validate compose_cls (ci_compose x) = Ok tt /\ validate release_cls (ci_release x) = Ok tt /\
+  (truthy (getf (ci_release x) (F"is_layered")) = true -> validate bp_cls (ci_base_product x) = Ok tt) /\
+  children_valid None (ci_variants x).
+Proof. exact load_ci_valid. Qed.
+Print Assumptions C07_loaded_composeinfo_is_valid.
